@@ -408,4 +408,55 @@ theorem bss_eval_sources_eq_model {σ : Type} (ref est : Separation.Arr) (cp : B
         simp only [List.map_cons, PySep.argmax, ok_bind, hgi, ← hbest, fancy2_perm n _ _ hmem]
         simp [outList, flatOut, selectOutputs, Except.map, pure, Except.pure, List.range_succ]
 
+theorem outList_injective : Function.Injective outList := by
+  rintro ⟨a, b, c, p⟩ ⟨a', b', c', p'⟩ h
+  simp only [outList, List.cons.injEq, and_true] at h
+  obtain ⟨h1, h2, h3, h4⟩ := h
+  have : p = p' := List.map_injective_iff.mpr (fun x y hxy => by exact_mod_cast hxy) h4
+  simp [h1, h2, h3, this]
+
+/-- HEADLINE (on the translated `bss_eval_sources`, valid non-empty input, kernel returning `C`): the four outputs are
+    the criteria selected along `popt`, where `popt` is the identity without `compute_permutation` and otherwise a
+    PERMUTATION of `0 … nsrc-1` that MAXIMISES the mean SIR (the first such in `itertools.permutations` order). -/
+theorem gen_bss_eval_sources_headline {σ : Type} (ref est : Separation.Arr) (cp : Bool)
+    (dec : Separation.Arr → List (List Rat) → Nat → Nat → Py (σ × σ × σ × σ))
+    (crit : σ → σ → σ → σ → Py (Rat × Rat × Rat)) (C : Nat → Nat → Nat → Rat)
+    (hv : validate (promote2 ref) (promote2 est) = .ok ())
+    (hne : ¬ ((promote2 ref).size = 0 ∨ (promote2 est).size = 0))
+    (hK : ∀ e t, e < (promote2 est).shape.headD 0 → t < (promote2 est).shape.headD 0 →
+      ∃ row c, (promote2 est).data[e]? = some row ∧ dec (promote2 ref) row t 512 = .ok c ∧
+        crit c.1 c.2.1 c.2.2.1 c.2.2.2 = .ok (C e t 0, C e t 1, C e t 2)) :
+    ∃ popt : List Nat,
+      Gen.separation.bss_eval_sources ref est cp dec crit
+        = .ok (selectFrom (fun e t => C e t 0) 0 popt, selectFrom (fun e t => C e t 1) 0 popt,
+               selectFrom (fun e t => C e t 2) 0 popt, popt) ∧
+      popt.Perm (List.range ((promote2 est).shape.headD 0)) ∧
+      (cp = false → popt = List.range ((promote2 est).shape.headD 0)) ∧
+      (cp = true → ∀ q : List Nat, q.Perm (List.range ((promote2 est).shape.headD 0)) →
+        meanSir ((promote2 est).shape.headD 0) (fun e t => C e t 1) q
+          ≤ meanSir ((promote2 est).shape.headD 0) (fun e t => C e t 1) popt) := by
+  have h := bss_eval_sources_eq_model ref est cp dec crit C hK
+  unfold bssEvalSources at h
+  simp only [hv, ok_bind, hne, if_false] at h
+  generalize (promote2 est).shape.headD 0 = n at *
+  refine ⟨if cp then bestPerm n (fun e t => C e t 1) else List.range n, ?_, ?_, ?_, ?_⟩
+  · cases hG : Gen.separation.bss_eval_sources ref est cp dec crit with
+    | error err => rw [hG] at h; exact absurd h (by simp [Except.map, pure, Except.pure])
+    | ok x =>
+      rw [hG] at h
+      have h' : outList x = selectOutputs 3 1 n C cp := by
+        simpa [Except.map, pure, Except.pure, flatOut] using h
+      congr 1
+      apply outList_injective
+      rw [h']
+      simp [outList, selectOutputs, List.range_succ]
+  · cases cp
+    · simp
+    · simpa using bestPerm_is_perm n _
+  · intro hc; simp [hc]
+  · intro hc q hq; simp only [hc, if_true]; exact bestPerm_max n _ q hq
+
+example : Gen.separation._safe_db 1 0 = .ok .posInf ∧ Gen.separation._safe_db 3 4 = .ok (.ofRatio (3 / 4)) := by
+  refine ⟨by rw [safe_db_eq_model]; rfl, by rw [safe_db_eq_model]; rfl⟩
+
 end Mir.C19.Gen
